@@ -820,7 +820,7 @@ func boolPhiEnv(env map[*ssa.Phi]ssa.Value, key string, b, pred *ssa.BasicBlock)
 				continue
 			}
 			switch phi.Type().Underlying().(type) {
-			case *types.Interface, *types.Pointer:
+			case *types.Interface, *types.Pointer, *types.Signature, *types.Map, *types.Slice:
 			default:
 				continue
 			}
